@@ -77,6 +77,17 @@ func directedHistories() map[string]History {
 	out["S6-setpower-in-the-block-of-jailing"] = History{g4v, cat(empty(2, 1),
 		[]BlockSpec{{Dt: 1, Absent: []int{0}}, {Dt: 1, Absent: []int{0}}, {Dt: 1, Absent: []int{0}, Txs: []TxSpec{tx(sp(adminID, 0, 12*M, true))}}, {Dt: 1, Absent: []int{0}, Txs: []TxSpec{tx(sp(adminID, 0, 13*M, true))}},
 			{Dt: 1, Absent: []int{0}, Txs: []TxSpec{tx(sp(adminID, 0, 14*M, true))}}, {Dt: 1, Absent: []int{0}, Txs: []TxSpec{tx(sp(adminID, 0, 15*M, true))}}, {Dt: 1, Absent: []int{0}, Txs: []TxSpec{tx(rm(adminID, 0))}}}, empty(3, 1))}
+	out["S7-remove-in-the-block-of-jailing"] = History{g4v, cat(empty(2, 1),
+		[]BlockSpec{{Dt: 1, Absent: []int{0}}, {Dt: 1, Absent: []int{0}}, {Dt: 1, Absent: []int{0}, Txs: []TxSpec{tx(rm(adminID, 0))}}}, empty(4, 1), empty(2, 20))}
+	out["S8-self-remove-in-the-block-of-jailing"] = History{g4v, cat(empty(2, 1),
+		[]BlockSpec{{Dt: 1, Absent: []int{1}}, {Dt: 1, Absent: []int{1}}, {Dt: 1, Absent: []int{1}, Txs: []TxSpec{tx(rm(1, 1))}}}, empty(4, 1), empty(2, 20))}
+	minc := paramTuple{Unbonding: int64(30e9), MaxVals: 100, MaxEntries: 7, Hist: 10000, Denom: "stake", MinComm: mulFrac(3, 10)}
+	lowRate := createMsg(3, 3)
+	lowRate.Rate, lowRate.MaxRate = mulFrac(2, 10), mulFrac(5, 10)
+	okRate := createMsg(4, 4)
+	okRate.Rate, okRate.MaxRate = mulFrac(3, 10), mulFrac(3, 10)
+	out["S9-chain-minimum-commission"] = History{g3, cat(empty(2, 1), []BlockSpec{blk(tx(MsgSpec{Kind: "params", Sender: adminID, Params: &minc}))},
+		[]BlockSpec{blk(tx(lowRate)), blk(tx(okRate))}, empty(2, 1))}
 	out["S3-non-admin"] = History{g3, cat(empty(1, 1), []BlockSpec{blk(tx(sp(user1ID, 0, 12*M, false)), tx(rm(2, 1)), tx(MsgSpec{Kind: "removepending", Sender: 1, Val: 3}))}, empty(2, 1))}
 	return out
 }
